@@ -40,6 +40,16 @@ FIXED = [
  ("C05","bf914e0","C05:dictstack-restore:error","an encrypted part that closes dictionaries opened before `eexec` and then opens a new one (`end 1 dict begin`) got the wrong dictionary stack back after the section: the re-slice to the former depth resurrected the overwritten slot (`2 dict begin /marker0 70 def currentfile eexec ... cleartomark marker0` → undefined; found after a round-2 seed made C05 enumerate what the encrypted part does to the dictionary stack)"),
  ("C17","26f593c","C17:order-dependent:Metrics.Write","glyph boxes whose edges are +0 in one glyph and -0 in another (an AFM file may say `B -0 0 400 700`): the union was accumulated in map order, so Metrics.FontBBoxPDF and the `FontBBox` line of Metrics.Write came out as `-0 0 …` or `0 -0 …` from one call to the next; Font.FontBBox / FontBBoxPDF likewise (keys C17:order-dependent:Metrics.Write, C17:order-dependent:afm write+read, C17:order-dependent:Font boxes and Font.Write; the hint came from a seeding agent's side remark)"),
  ("C05","dc589e1","C05:dictstack-restore:limit","`currentfile eexec` entered with 20 dictionaries on the dictionary stack pushed systemdict as the 21st entry and ran the section, where `systemdict begin` followed by the plaintext fails with dictstackoverflow (C05 family dictstack-restore with 15..18 extra dictionaries open)"),
+ ("C02","bce92e3","C02:type:state:stack-depth:(int)","`type` left its operand on the stack below the type name (`1 type` gave `1 /integertype`); PLRM: any type -> name.  The reference machine had copied the behaviour; pointed out by a round-6 seeding agent"),
+ ("C17","d3a67ad","C17:order-dependent:forall over a dictionary, left after the first entry","`forall` over a dictionary ranged over the Go map directly: `<< /a 1 /b 2 /c 3 /d 4 >> { pop exit } forall` left a different key from run to run, and a CMap or font file that picks its name or numbers its entries this way read differently each time (keys C17:order-dependent:forall…, C17:order-dependent:ReadCMap; entries are now visited in sorted key order; remark of a round-6 seeding agent)"),
+ ("C03","90eb9e3","C03:loop-operands:state:stack-depth:{for}","`9223372036854775806 1 9223372036854775807 {} for` did not stop after two rounds: the control variable wrapped around to the smallest integer and the loop went on until the budget or the operand stack ended it (C03 family loop-operands now has 972 triples at both ends of the integer range)"),
+ ("C11","0b3cfb5","C11:budget-across-calls:counting-continues-after-the-budget-error","after the budget error every further Execute call on the interpreter failed as it should but counted one more operation first: MaxOps=3 gave NumOps 4, 5, 6, … on consecutive calls (the property: never counting past N+1)"),
+ ("C01","b9f34bb","C01:crash:deep-nesting:{{{…}}} bind","eight million `{`, as many `}` and `bind` (16 MB, any budget, also through ReadCMap and type1.Read) ended the process with `fatal error: stack overflow`: braces are handled before any limit, and bind recurses once per level; more than 500 unclosed braces now give limitcheck (C01 family deep-nesting)"),
+ ("C12","6eec1b7","C12:delivery:ps:stray-delimiter-0","`1 > 2` is a syntaxerror when the reader reports the end of the input separately, but ended silently with `1` on the stack when the reader returned the last bytes together with io.EOF (the scanner returned the reader's pending error in place of the syntax error)"),
+ ("C04","f2d1404","C04:token:procedure-wrong-length","a form feed did not end a comment (PLRM 3.2.2: newline or form feed): `1 %c<FF>2<LF>3` read as 1 3.  Earlier listed under `deliberately not generated`; now generated (two comment+FF separators)"),
+ ("C07","15a96e6","C07:fault-accepted:low-above-high:codespacerange","`1 begincodespacerange <FF> <00> endcodespacerange` was stored although `a reversed range … is rejected`; earlier the reference treated only the three range-mapping kinds as faults"),
+ ("C09","9356f30","C09:creation-date","creation times in zones the header comment cannot express did not read back: a zone offset with seconds (time.FixedZone(\"\", 3632), local mean time) came back 32 s off, a zone name that is not an abbreviation (\"myzone\", \"X\", \"Europe/Berlin\") came back as the zero time, and a name with a line break broke the file (keys C09:creation-date, C09:read-error, C08:decode:unsupported:operator)"),
+ ("C15","94f5319","C15:sizes:read-error","afm.Read failed with `bufio.Scanner: token too long` on the library's own output as soon as one line passed 64 KiB (a Notice of 70,000 bytes, a glyph with 9000 ligatures)"),
  ("C16","c23956e","C16:glyphlist:multi-code-entry-maps-to-U+0000","the 81 glyph list entries denoting several characters mapped to U+0000 (ToUnicode(\"dalethatafpatah\") = [0000] instead of [05D3 05B2])"),
 ]
 OPEN = [
